@@ -681,21 +681,19 @@ def faulty(ops):
 
 
 def source_cfg(ctx=None):
-    """What the model takes from the source (Python `ast`): the exception classes caught around pickle.loads in
-    parse(), and whether parse() has the retry handler of fix C01-1."""
-    try:
-        ex = a01.extract()
-        return {"caught": ex["caught_unpickle"], "recover": ex["recover"], "writeTolerant": ex["write_tolerant"]}
-    except Exception as e:  # translator does not recognise the source any more
-        if ctx is not None:
-            ctx.tie_broken("translator:parse-shape", repr(e))
-        return {"caught": ["Exception"], "recover": True, "writeTolerant": False}
+    """What the model takes from the source: the exception classes caught around pickle.loads in parse(), whether
+    parse() has the retry handler of fix C01-1 and the tolerated cache write of fix C01-2 (static extraction with
+    Python `ast`, else probed behaviourally — see a01.extract_any)."""
+    ex = a01.extract_any(ctx, ctx.scratch if ctx is not None else None)
+    if ex is None:
+        return {"caught": ["Exception"], "recover": True, "writeTolerant": True}
+    return {"caught": ex["caught_unpickle"], "recover": ex["recover"], "writeTolerant": ex["write_tolerant"]}
 
 
 def translate(ctx):
     """Generated/SqlProgram.lean (shared with C02) carries the classes caught around pickle.loads."""
     from harness.props import c02
-    c02.translate(ctx)
+    c02.translate(ctx, ctx.scratch)
 
 
 def run(ctx):
